@@ -12,7 +12,7 @@ The following semantic property is supposed to hold for this codebase:
 
 YOUR TASK: craft ONE realistic change to the library source (not to tests) that BREAKS this property, such that
   * the workspace still compiles and the existing tests of the affected crate(s) still pass, unedited
-    (run them: `cd /tmp/seed/{pid} && CARGO_TARGET_DIR=/tmp/seed/target cargo test --offline -p <crate>`; the first build of a crate can take a few minutes; other agents share that target dir, so builds may wait on a lock);
+    (run them: `cd /tmp/seed/{pid} && CARGO_TARGET_DIR=/tmp/seed/{pid}-target cargo test --offline -p <crate>` — ALWAYS use exactly this private target dir; the first build takes several minutes; delete /tmp/seed/{pid}-target when you are completely done);
   * it looks like something a developer could plausibly do (a refactor, an optimisation, a "fix", a changed default, a reordered statement, an off-by-one, a dropped or loosened guard…), not sabotage;
   * it needs something SPECIFIC to manifest — a particular interleaving or order of events, a multi-step sequence of operations, an unusual or boundary input, a fault at a particular point, or two cooperating sites that each look fine alone. A change that ordinary use would expose at once is not wanted.
   * Files named verif_*.rs and items behind `cfg(libp2p_verif)` are test instrumentation: do not modify them and do not rely on them.
